@@ -5209,6 +5209,12 @@ class DfaCompileCtx:
             if not to_replace.is_fallthrough:
                 continue
 
+            # an action that can redirect on failure (an append that is out of space) hands the byte being looked at to its handler:
+            # behind a consuming transition that is the next byte, on the consuming transition itself it would be the consumed one
+            if not transition.is_fallthrough and any(sub.get_target_override_mode() == ActionOverrideMode.MAY_GOTO_TARGET
+                                                     for action in to_replace.actions for sub in action.all_subactions()):
+                continue
+
             if len(to_replace.actions) > 0:
                 max_count = ProgramData.option(ProgramOption.MAX_SHORTCIRCUIT_FALLTHROUGH) - ProgramData.option(ProgramOption.MAX_SHORTCIRCUIT_ACTION_PENALTY)*(len(to_replace.actions)-1)
                 if ignore_map_counter[(frozenset(to_replace.on_values), to_replace.target)] > max_count:
